@@ -102,9 +102,7 @@ class ConsumerRun:
         self.sizes, mx = buffer_sizes(cfg)
         self.proc_d = None
         self.overlap = False
-        self.running = False
         self.ncommit = 0
-        self.shutdown_pending = False
         kw = {}
         if cfg["group"]:
             kw = dict(consumer_group="g", auto_commit_every_n=cfg["block_n"], auto_commit_every_ms=(1000 if cfg["auto_t"] else 0))
@@ -168,6 +166,15 @@ class ConsumerRun:
         d = self.client.pending.get(kind)
         return d if d is not None and not d.called else None
 
+    # which calls the driver may make next is read from the consumer itself; the verdict never uses these
+    @property
+    def running(self):
+        return self.consumer._start_d is not None
+
+    @property
+    def shutdown_pending(self):
+        return self.consumer._shutdown_d is not None
+
     def possible(self, e):
         a = e["a"]
         c = self.consumer
@@ -215,14 +222,10 @@ class ConsumerRun:
         c = self.consumer
         try:
             if a == "Start":
-                self.running = True
                 self._watch("start", c.start(x))
             elif a == "Stop":
                 c.stop()
-                self.running = False
             elif a == "Shutdown":
-                if self.running:
-                    self.shutdown_pending = True
                 self._watch("shutdown", c.shutdown())
             elif a == "Commit":
                 self._watch(k, c.commit())
@@ -264,11 +267,6 @@ class ConsumerRun:
                 raise ValueError(a)
         except Exception as ex:
             exc = "%s: %s" % (type(ex).__name__, ex)
-        # the consumer stops itself in some paths (shutdown): follow its own notion through the public effect
-        if any(t[0] == "fire" and t[1] == "shutdown" for t in self.acts):
-            if self.shutdown_pending:
-                self.running = False
-            self.shutdown_pending = False
         lp, lc = c.last_processed_offset, c.last_committed_offset
         pending = sum(1 for dc in self.clock.getDelayedCalls() if (self.timer_tags.get(id(dc)) or ("",))[0] in ("retry", "cretry", "tick"))
         self.steps.append({"e": {"a": a, "x": x, "w": w, "k": k}, "o": {"acts": self.acts, "exc": exc, "lp": -1 if lp is None else lp,
